@@ -1,7 +1,7 @@
 (** C08 - Comparison is one consistent total order; equal values are interchangeable keys.
-    Property theorems only; proofs in Proofs/F64Order.v, Proofs/NumExact.v. *)
-From Coq Require Import ZArith Bool.
-From JaqV Require Import Base.F64 Val.Num Proofs.F64Order Proofs.NumExact Proofs.HashLaws.
+    Property theorems only; proofs in Proofs/F64Order.v, Proofs/NumExact.v, Proofs/ValOrder.v. *)
+From Coq Require Import ZArith Bool List.
+From JaqV Require Import Base.F64 Val.Num Val.Val Proofs.F64Order Proofs.NumExact Proofs.HashLaws Proofs.ValOrder.
 Local Open Scope Z_scope.
 
 (** floats free of NaN: [float_cmp] is a total preorder with both zeros identified *)
@@ -47,3 +47,39 @@ Print Assumptions equal_numbers_hash_equally.
 
 Example zeros_equal : float_cmp pos_zero neg_zero = Eq /\ float_eq pos_zero neg_zero = true /\ nonan neg_zero.
 Proof. repeat split. Qed.
+
+(** ** the order of nested values *)
+(** [tpo c P]: on the class P the three-way comparison c is reflexive, antisymmetric (c b a is the opposite of c a b) and
+    transitive (a <= b <= d gives a <= d) - a total preorder, with exactly one of <, ==, > for any pair.
+    [vok N v]: every number inside v - at any depth, in arrays, as object keys and values - belongs to the class N.
+    Whenever the order of numbers is a total preorder on N, the order of values is one on all such values: arrays compare
+    lexicographically, objects by their sorted keys and then by their values in that order. *)
+Theorem value_order_lifts : forall N, tpo num_cmp N -> tpo val_cmp (vok N).
+Proof. exact ValOrder.val_cmp_tpo. Qed.
+Print Assumptions value_order_lifts.
+
+Theorem value_trichotomy : forall N, tpo num_cmp N -> forall a b, vok N a -> vok N b ->
+  (val_cmp a b = Lt /\ val_cmp b a = Gt) \/ (val_cmp a b = Eq /\ val_cmp b a = Eq) \/ (val_cmp a b = Gt /\ val_cmp b a = Lt).
+Proof. exact ValOrder.val_trichotomy. Qed.
+Print Assumptions value_trichotomy.
+
+(** values whose numbers are integers of any size (machine or big) *)
+Theorem value_order_integers : tpo val_cmp (vok all_int).
+Proof. exact ValOrder.val_order_integers. Qed.
+Print Assumptions value_order_integers.
+
+(** values whose numbers are floats free of NaN *)
+Theorem value_order_floats : tpo val_cmp (vok all_float).
+Proof. exact ValOrder.val_order_floats. Qed.
+Print Assumptions value_order_floats.
+
+(** values that mix integers up to 4096 in magnitude (either representation) with NaN-free floats: the conversion of these
+    integers is exact and strictly monotone (checked for each of them in the kernel) *)
+Theorem value_order_mixed_small : tpo val_cmp (vok small_or_float).
+Proof. exact ValOrder.val_order_mixed. Qed.
+Print Assumptions value_order_mixed_small.
+
+(** the fuel of the comparison beyond the nesting depth does not matter *)
+Theorem comparison_fuel_irrelevant : forall n x y, (depth x < n)%nat -> (depth y < n)%nat -> val_cmp x y = cmp_f n x y.
+Proof. exact ValOrder.val_cmp_fuel. Qed.
+Print Assumptions comparison_fuel_irrelevant.
